@@ -164,5 +164,16 @@ CLAIMED["C19"] = dict(
     note="Trusted: Lean kernel, harness/door, tokio broadcast/mpsc semantics (the model's reading of them is what the exhaustive "
          "sequences compare). Process exit and lock-across-await effects in main.rs are outside the model.",
 )
+CLAIMED["C18"] = dict(
+    text="Unbounded Lean theorems about the service-channel model: demultiplexer precedence; GET /<N>mb.bin (N in plain decimal) is "
+         "accepted iff 1 <= N <= 100 and announces exactly N * 2^20 bytes; for every client acceptance script bytes handed over + bytes "
+         "owed = announced and a script that keeps accepting drains it; POST /upload.html with Content-Length L is accepted iff "
+         "1 <= L <= 120 * 2^20 and is answered after L bytes or end of stream; everything else is 400; the reverse-proxy request keeps "
+         "path and headers and carries X-Original-Protocol. Tied to the code by ~2.9k differential cases per run (demux table, real "
+         "HTTP/1.1 and HTTP/2 speedtest/ping sessions counted under a paused clock, a real loopback origin for the reverse proxy under "
+         "both egress policies, with an authenticator configured and no credentials sent).",
+    note="Trusted: Lean kernel, harness/door, Rust's integer parser as modelled, http crate URI handling, HTTP/3 not driven. The reverse "
+         "proxy's fixed destination is a code-reading fact exercised by the run, not a theorem about client influence.",
+)
 NOT_CLAIMED = {p: "not yet built in this framework (planned, see DESIGN.md section 5)" for p in
-               ["C07", "C16", "C17", "C18", "C20"]}
+               ["C07", "C16", "C17", "C20"]}
